@@ -6,6 +6,7 @@ import (
 	"time"
 
 	"verif/mc/evid"
+	"verif/mc/gjs"
 	"verif/mc/native/ctxsel"
 )
 
@@ -47,6 +48,18 @@ func c18(tier string) int {
 		}
 		rep.Violation(id, v, map[string]string{"case.txt": v + "\n"})
 	}
+	er, err := ctxsel.RunE2E(work, gjs.Repo())
+	if err != nil {
+		fmt.Fprintln(os.Stderr, "HARNESS:", err)
+		harness++
+	}
+	for _, v := range er.Violations {
+		id := v
+		if i := indexByte(v, ' '); i > 0 {
+			id = v[:i]
+		}
+		rep.Violation(id, v, map[string]string{"case.txt": v + "\n"})
+	}
 	samples := []any{}
 	for _, s := range r.Samples {
 		samples = append(samples, s)
@@ -55,15 +68,17 @@ func c18(tier string) int {
 		samples = append(samples, "none")
 	}
 	cov := map[string]any{
-		"evaluations":         r.Decisions + sr.Files,
+		"evaluations":         r.Decisions + sr.Files + er.Decisions,
 		"distinct_nontrivial": r.Decisions,
-		"rule":                "decision = (file with //go:build expression of depth <= 2 over a 24-tag vocabulary, or depth <= 1 x 15 file-name suffixes, or legacy +build spelling, cgo files, _test files, hidden files, .inc.js files) x each of the 8 subsets of the user tags {t1,t2,linux}; all files live in one directory decided by the real NewBuildContext(...).Import; expected = independent evaluator of the documented rule (go/build/constraint parser + tag table + file-name rule); thorough adds depth-3 expressions over 8 tags and depth-2 x suffix; plus every .go file of 26 real standard-library packages under the js/wasm rule",
+		"rule":                "decision = (file with //go:build expression of depth <= 2 over a 24-tag vocabulary, or depth <= 1 x 15 file-name suffixes, or legacy +build spelling, cgo files, _test files, hidden files, .inc.js files) x each of the 8 subsets of the user tags {t1,t2,linux}, 7 further tag lists (always-on tags repeated by the user, duplicates) and 5 host environments (CGO_ENABLED 1/unset, GOOS/GOARCH set but empty, set to the defaults); every release tag go1.1..go1.30 positive, negated and as a window; .inc.js names with dots, suffixes, hidden, directory, symbolic links; all files live in one directory decided by the real NewBuildContext(...).Import; end-to-end: the gopherjs command built from the tree builds a 140-file package for 10 (tag string, host environment) pairs and the files that registered themselves under Node are compared with the same rule; expected = independent evaluator of the documented rule (go/build/constraint parser + tag table + file-name rule); thorough adds depth-3 expressions over 8 tags and depth-2 x suffix; plus every .go file of 26 real standard-library packages under the js/wasm rule",
 		"samples":             samples,
 		"files":               r.Files,
 		"imports":             r.Imports,
 		"selected_total":      r.Selected,
 		"std_packages":        sr.Packages,
 		"std_files":           sr.Files,
+		"e2e_runs":            er.Runs,
+		"e2e_decisions":       er.Decisions,
 		"exhaustive":          harness == 0,
 	}
 	ev := evid.Evidence{PropertyID: "C18", Tier: tier, Level: "exploration", Coverage: cov, Violations: rep.Viol, KnownFindings: rep.KnownList(),
